@@ -241,7 +241,7 @@ FamSites == IF c.fam = "motion" THEN MoSites ELSE IF c.fam = "exact" THEN <<ExA,
             ELSE IF c.fam = "bilinear" THEN BiSites ELSE IF c.fam = "field" THEN FiSites
             ELSE IF c.fam = "thole" THEN ThSites ELSE InSites
 Theorems == ph = 1 =>
-  /\ \A n \in 1..Len(FamSites) : WellFormed(FamSites[n])
+  /\ LET fs == TLCEval(FamSites) IN \A n \in 1..Len(fs) : WellFormed(fs[n])
   /\ v # Zero3
   /\ c.fam = "motion" => MoTheorems
   /\ c.fam = "exact" => ExTheorems
@@ -250,7 +250,8 @@ Theorems == ph = 1 =>
   /\ c.fam = "thole" => ThTheorems
 
 Rec(sites, cfgs, rels, exact, bnd, rot) ==
-  [fam |-> c.fam, u |-> c.u, sites |-> [n \in 1..Len(sites) |-> Flat(sites[n])], cfg |-> cfgs,
+  LET ss == TLCEval(sites) IN
+  [fam |-> c.fam, u |-> c.u, sites |-> [n \in 1..Len(ss) |-> Flat(ss[n])], cfg |-> cfgs,
    rel |-> rels, exact |-> exact, bnd |-> bnd, rot |-> rot]
 Vector == (Emit /\ ph = 1) =>
   PrintT(ToJson(
